@@ -104,10 +104,10 @@ reg(
     "lane}; the invariant (reference-model coherence, observed values, telescoping of consecutive updates) is checked after "
     "every step. Non-trivial: >= 3 executed steps of >= 2 different kinds including a kernel or regenerate. Distinct = hash "
     "of the whole history.",
-    quick={"shards": 16, "timeout_s": 3000, "n_histories": 3, "max_ops": 6,
+    quick={"shards": 16, "timeout_s": 3000, "n_histories": 6, "max_ops": 8, "n_nest": 2,
            "required_classes": ["C05.step_update", "C05.step_regenerate", "C05.step_mh", "C05.step_mala", "C05.step_hmc",
                                 "C05.step_jit", "C05.step_vector", "C05.pair_update>update"]},
-    thorough={"shards": 16, "timeout_s": 4 * 3600, "n_histories": 20, "max_ops": 12,
+    thorough={"shards": 16, "timeout_s": 4 * 3600, "n_histories": 40, "max_ops": 12, "n_nest": 12,
               "required_classes": ["C05.step_update", "C05.step_regenerate", "C05.step_mh", "C05.step_mala", "C05.step_hmc", "C05.step_jit", "C05.step_vector"]},
 )
 
@@ -246,14 +246,15 @@ reg(
 
 reg(
     "C14",
-    "Placements are ENUMERATED: a sampling core (dist.sample, gf.simulate, bare gf() call, sample_shape site, ADEV site) inside "
+    "Placements are ENUMERATED: a sampling core (dist.sample, gf.simulate, bare gf() call, sample_shape site, ADEV site, a site behind "
+    "parameterised equations, a plain / ADEV site behind equations that carry sub-jaxprs such as jnp.clip, jnp.where, lax.cond) inside "
     "every stack of wrappers of the stated depths over {jit, scan body, while_loop body, fori_loop body, cond, switch, grad, "
     "value_and_grad, vmap, nested jit, checkpoint, custom_jvp, lax.map, modular_vmap}, with seed applied nowhere / outermost / "
     "directly around the core. Each placement is built and called repeatedly (3 calls unseeded; 4 keys + a repeat seeded). "
     "Non-trivial: depth >= 2 or a construct the Seed interpreter does not special-case. Distinct by construction.",
     quick={"shards": 16, "timeout_s": 3000, "depths": [1, 2], "cores_deep": ["site_after_ops", "gf_simulate"], "exhaustive": True,
            "required_classes": ["C14.seed_none", "C14.seed_outer", "C14.seed_inner", "C14.depth_1", "C14.depth_2", "C14.outcome_lowering_error", "C14.outcome_value", "C14.outcome_vmap_error"]},
-    thorough={"shards": 16, "timeout_s": 3 * 3600, "depths": [1, 2], "cores_deep": ["dist_sample", "gf_simulate", "gf_call", "sample_shape", "adev_site", "site_after_ops"], "sample_depth3": 800, "exhaustive": True,
+    thorough={"shards": 16, "timeout_s": 3 * 3600, "depths": [1, 2], "cores_deep": ["dist_sample", "gf_simulate", "gf_call", "sample_shape", "adev_site", "site_after_ops", "site_after_calls", "adev_site_after_calls"], "sample_depth3": 800, "exhaustive": True,
               "required_classes": ["C14.seed_none", "C14.seed_outer", "C14.depth_2", "C14.outcome_lowering_error"]},
     exhaustive=True,
 )
